@@ -58,7 +58,9 @@ CONSTANTS Keys,            \* key materials (strings)
           MaxRefresh, MaxRestarts, MaxWriteFaults, MaxReadFaults,
           ReadFaultKinds,  \* SUBSET {"tombCorrupt", "tombUnreadable", "stateCorrupt"}
           AllowSoleRecordLoss,   \* corrupt the state file while it holds the only record of a revocation
-          AllowIntraSetCollision \* publish two DNSKEYs with the same tag in one RRset
+          AllowIntraSetCollision, \* publish two DNSKEYs with the same tag in one RRset
+          RelevantSignersOnly    \* state-space reduction: only signatures of keys the resolver could use
+                                 \* (a signature of any other key is the same as no signature)
 
 ASSUME /\ Configured \subseteq Keys
        /\ \A a, b \in Configured : a # b => Tag[a] # Tag[b]
@@ -287,6 +289,7 @@ Fetch(ok, z) ==
   /\ pc = "Fetch"
   /\ IF ok
        THEN /\ z \in Zones /\ zone' = z
+            /\ RelevantSignersOnly => (z.signedN \cup z.signedR) \subseteq (cand \cup rootKeys)
             /\ Step("Authenticate")
             /\ UNCHANGED <<rootKeys, tombUnreadable, booting, prior, cur, tombs, cand, fetched, revOnly,
                            staged, newRev, tombErr, stateErr, gT, gFull, gRevSet>>
